@@ -4,6 +4,7 @@ import (
 	"fmt"
 	"math/rand"
 	"os"
+	"strings"
 	"sync"
 	"testing"
 	"time"
@@ -967,6 +968,89 @@ func TestC34(t *testing.T) {
 				r.Sample(map[string]any{"case": id, "outcome": class, "server_err": fmt.Sprint(res.serverErr), "hello_prefix": mon.Hex(msg[:min(len(msg), 64)])})
 			}
 		})
+	}
+
+	// ---- A2: two hellos around a HelloRetryRequest ----
+	// The first hello has no usable key share, so every TLS 1.3 server answers with a
+	// HelloRetryRequest; the second one supplies a share.  Both carry (or not) an
+	// encrypted_client_hello extension in every combination of shapes: none, the inner marker
+	// (one byte 01), an outer extension with all-zero fields / empty enc, an outer extension
+	// with random fields.  A server without ECH keys sees such hellos from any ECH client.
+	{
+		echShapes := []struct {
+			name string
+			f    func(rg *rand.Rand) []byte
+		}{
+			{"none", func(*rand.Rand) []byte { return nil }},
+			{"inner-marker", func(*rand.Rand) []byte { return []byte{1} }},
+			{"outer-zero", func(rg *rand.Rand) []byte {
+				return append([]byte{0, 0, 0, 0, 0, 0, 0, 0}, vec16(randBytes(rg, 16+rg.Intn(200)))...)
+			}},
+			{"outer-random", func(rg *rand.Rand) []byte {
+				b := []byte{0, 0, 1, 0, byte(1 + rg.Intn(3)), byte(rg.Intn(256))}
+				b = append(b, vec16(randBytes(rg, []int{0, 32, 33}[rg.Intn(3)]))...)
+				return append(b, vec16(randBytes(rg, 16+rg.Intn(200)))...)
+			}},
+		}
+		n := mon.Pick(1500, 60000)
+		parallelW(n, func(w, k int) {
+			if hangsSeen.Load() >= 5 {
+				return
+			}
+			rg := Sub("C34A2", k)
+			p := pts[rg.Intn(len(pts))]
+			sv := servers[rg.Intn(len(servers))]
+			if !p.ch.Has(wire.ExtSupportedVersions) {
+				return
+			}
+			s1, s2 := echShapes[k%4], echShapes[(k/4)%4]
+			mk := func(shape []byte, share bool) []byte {
+				exts := cloneExts(p.ch.Exts)
+				var out []wire.Ext
+				for _, e := range exts {
+					switch e.Type {
+					case wire.ExtECH:
+						continue
+					case wire.ExtSupportedGroups:
+						// (classical groups only, X25519 first: the group every server of the
+						// pool asks for, so that the second hello's share can be the right one)
+						e.Data = vec16(u16be(0x001d, 0x0017, 0x0018))
+					case wire.ExtKeyShare:
+						if share {
+							g := []uint16{0x001d, 0x001d, 0x001d, 0x0017, 0x0018}[rg.Intn(5)]
+							e.Data = vec16(append(be16(g), vec16(randBytes(rg, KeyShareSize(g)))...))
+						} else {
+							e.Data = vec16(nil) // no share at all
+						}
+					case wire.ExtPreSharedKey:
+						continue
+					}
+					out = append(out, e)
+				}
+				if shape != nil {
+					out = append(out, wire.Ext{Type: wire.ExtECH, Data: shape})
+				}
+				return marshalCH(p.ch, out, true)
+			}
+			ch1, ch2 := mk(s1.f(rg), false), mk(s2.f(rg), true)
+			id := fmt.Sprintf("hrr-pair|%s|%s|ech1=%s|ech2=%s|%d", sv.name, p.tg.Name, s1.name, s2.name, k)
+			mon.JournalSlot(fmt.Sprintf("w%02d", w), id)
+			// (after a HelloRetryRequest the record layer version is 0x0303)
+			second := frameMsg(rg, ch2, 0)
+			for off := 0; off+5 <= len(second); off += 5 + (int(second[off+3])<<8 | int(second[off+4])) {
+				second[off+1], second[off+2] = 3, 3
+			}
+			res := c34Scripted(sv, p.ch, [][]byte{frameMsg(rg, ch1, 0), second}, false)
+			sig := map[string]string{"server": sv.name, "target": family(p.tg.Name), "workload": "hrr-pair", "mutation": "ech1=" + s1.name, "then": "ech2=" + s2.name}
+			class := evaluate(id, res, sig)
+			if res.serverErr != nil && strings.Contains(res.serverErr.Error(), "encrypted client hello") {
+				r.Count("hello_pairs_judged_at_the_ech_comparison", 1)
+			}
+			r.Count("hello_pairs_around_hrr", 1)
+			r.Case(fmt.Sprintf("A2|%s|%s|%s|%s|%s", sv.name, family(p.tg.Name), s1.name, s2.name, class), true)
+		})
+		r.Floor("hello_pairs_around_hrr", 500)
+		r.Floor("hello_pairs_judged_at_the_ech_comparison", 100)
 	}
 
 	// ---- B: real clients with mutated outgoing messages ----
